@@ -338,7 +338,7 @@ func mainBurn(o vh.Opts) {
 	handle(burnHist{Min: 1, Seed: []seedNonce{{0, 1<<63 - 1}}, Unreachable: true, Ops: []burnOp{{K: "burn", C: 0, V: 5, P: "addr", A: 0}, {K: "burn", C: 0, V: 5, P: "addr", A: 0}}})
 	handle(burnHist{Min: 1, Seed: []seedNonce{{0, 1<<63 - 2}}, Ops: []burnOp{{K: "burn", C: 0, V: 5, P: "addr", A: 0}}})
 	handle(burnHist{Min: 3, Ops: []burnOp{{K: "burn", C: 0, V: 3, P: "addr", A: 1}, {K: "burn", C: 1, V: 3, P: "addr", A: 2}, {K: "burn", C: 1, V: 2, P: "addr", A: 2}, {K: "burn", C: 0, V: 4, P: "addr", A: 1}}})
-	rnd := vh.NewRand(o.Seed)
+	rnd := vh.NewRand(o.Seed).Fork() // Fork: NewRand(k) is NewRand(1) shifted by k-1 draws
 	for i := 0; i < o.N(500, 6000); i++ {
 		handle(genBurn(rnd))
 	}
